@@ -10,6 +10,7 @@ package main
 
 import (
 	"bufio"
+	"io"
 	"encoding/json"
 	"fmt"
 	"os"
@@ -237,7 +238,8 @@ func supervise(id, tier string, rest []string) int {
 	logPath := filepath.Join(work, "child.log")
 	logf, _ := os.Create(logPath)
 	cmd := exec.Command(os.Args[0], "-child", id, tier)
-	cmd.Stdout = os.Stdout
+	vc := &violationCounter{}
+	cmd.Stdout = io.MultiWriter(os.Stdout, vc)
 	cmd.Stderr = logf
 	cmd.Env = append(os.Environ(),
 		"VERIF_SEED="+strconv.FormatInt(sd, 10),
@@ -301,6 +303,11 @@ func supervise(id, tier string, rest []string) int {
 		crashPath := filepath.Join(crashDir, "child-crash.log")
 		os.WriteFile(crashPath, []byte("journal tail:\n"+strings.Join(jl, "\n")+"\n\nlog head:\n"+strings.Join(headLines, "\n")+"\n\nlog tail:\n"+strings.Join(ll, "\n")+"\n"), 0o644)
 		switch {
+		case vc.n > 0:
+			// the child already printed VIOLATION lines before it died / was stopped
+			unknownViol += vc.n
+			exit = 1
+			inconclusive = append(inconclusive, fmt.Sprintf("child did not finish (%v, timed out=%v) after reporting %d violation(s); see %s", werr, timedOut, vc.n, crashPath))
 		case timedOut:
 			inconclusive = append(inconclusive, fmt.Sprintf("watchdog fired after %ds (goroutine dump in %s)", timeout, crashPath))
 			exit = 2
@@ -454,6 +461,27 @@ func supervise(id, tier string, rest []string) int {
 		}
 	}
 	return exit
+}
+
+// violationCounter counts VIOLATION lines in the child's stdout.
+type violationCounter struct {
+	n    int
+	part []byte
+}
+
+func (v *violationCounter) Write(p []byte) (int, error) {
+	v.part = append(v.part, p...)
+	for {
+		i := strings.IndexByte(string(v.part), '\n')
+		if i < 0 {
+			break
+		}
+		if strings.HasPrefix(string(v.part[:i]), "VIOLATION property=") {
+			v.n++
+		}
+		v.part = v.part[i+1:]
+	}
+	return len(p), nil
 }
 
 // scanLog returns the first n lines of the log, the first line that announces
